@@ -6,7 +6,9 @@ import (
 	"errors"
 	"io"
 	"net"
+	"os"
 	"sync"
+	"syscall"
 	"time"
 
 	"github.com/go-kit/log"
@@ -50,6 +52,7 @@ type vhWorldBGP struct {
 	ebgp      bool
 	mu        sync.Mutex
 	ln        net.Listener
+	dummies   []net.Conn
 }
 
 var vhW *vhWorldBGP
@@ -215,11 +218,58 @@ func (w *vhWorldBGP) listen() int {
 		panic(err)
 	}
 	w.ln = ln
+	return w.serve(0, 0)
+}
+
+// listenSlow (native race retry): a peer that is slow to take connections. The listening socket has a
+// backlog of 0 and its accept queue is filled with a dummy connection, so the session's SYN is dropped and
+// retransmitted after about a second; accepting starts after delay. Establishing the connection thus takes
+// about a second - the time the in-memory dial of the engine world blocks.
+func (w *vhWorldBGP) listenSlow(delay time.Duration) int {
+	fd, err := syscall.Socket(syscall.AF_INET, syscall.SOCK_STREAM, 0)
+	if err != nil {
+		panic(err)
+	}
+	_ = syscall.SetsockoptInt(fd, syscall.SOL_SOCKET, syscall.SO_REUSEADDR, 1)
+	if err := syscall.Bind(fd, &syscall.SockaddrInet4{Addr: [4]byte{127, 0, 0, 1}}); err != nil {
+		panic(err)
+	}
+	if err := syscall.Listen(fd, 0); err != nil {
+		panic(err)
+	}
+	f := os.NewFile(uintptr(fd), "slow-listener")
+	ln, err := net.FileListener(f)
+	f.Close()
+	if err != nil {
+		panic(err)
+	}
+	w.ln = ln
+	dummies := 0
+	for i := 0; i < 4; i++ {
+		c, err := net.DialTimeout("tcp4", ln.Addr().String(), 150*time.Millisecond)
+		if err != nil {
+			break // the queue is full: further connection attempts wait for a retransmission
+		}
+		w.dummies = append(w.dummies, c)
+		dummies++
+	}
+	return w.serve(dummies, delay)
+}
+
+// serve accepts connections (after delay; the first skip ones are dummies and are discarded).
+func (w *vhWorldBGP) serve(skip int, delay time.Duration) int {
+	ln := w.ln
 	go func() {
+		time.Sleep(delay)
 		for {
 			tc, err := ln.Accept()
 			if err != nil {
 				return
+			}
+			if skip > 0 {
+				skip--
+				tc.Close()
+				continue
 			}
 			w.mu.Lock()
 			w.dials++
@@ -338,7 +388,12 @@ func VerifSession(steps, mode, fault int) {
 	}
 	peerAddr, peerPort := "10.0.0.1", uint16(179)
 	if !vr.Symbolic() {
-		peerAddr, peerPort = "127.0.0.1", uint16(w.listen())
+		if mode == 2 && vr.RaceRetry() {
+			peerPort = uint16(w.listenSlow(400 * time.Millisecond))
+		} else {
+			peerPort = uint16(w.listen())
+		}
+		peerAddr = "127.0.0.1"
 		defer w.ln.Close()
 	}
 	// at most one write failure, on a symbolic write of the first or second connection
@@ -451,6 +506,9 @@ func VerifSession(steps, mode, fault int) {
 		settle()
 		vr.WakeSleepers()
 		settle()
+		if !vr.Symbolic() && vr.RaceRetry() {
+			time.Sleep(2500 * time.Millisecond) // a connection attempt in flight when Close returned completes
+		}
 		lock()
 		msgs2 := 0
 		for _, c := range w.conns {
